@@ -68,7 +68,7 @@ class nonlinear_ODE_1(Problem):
         """
 
         me = self.dtype_u(self.init)
-        me[:] = t - t**2 / 4
+        me[:] = 1 - (np.sqrt(1 - self.u0) - t / 2) ** 2
         return me
 
     def eval_f(self, u, t):
